@@ -299,6 +299,12 @@ def make_env_from(b):
     tr.add_events(events_from_stream(b))
     fixed, prop = case.get("fees", [0.0, 0.0])
     fees = BrokerFees(markup=case.get("markup", 0.0), interest_rate=b.rate_contract, proportional=prop, fixed=fixed)
+    if case.get("pre_env_latency_us") is not None:
+        # Another environment with a different latency was built earlier on the same Transmitter object (and is no
+        # longer used): the latency split belongs to the environment built last.
+        TradingEnv(action_space=make_space(b), state=RecState(), reward=make_reward(["simple"]), transmitter=tr,
+                   initial_cash=100.0, broker_fees=BrokerFees(interest_rate=b.rate_contract),
+                   latency=timedelta(microseconds=case["pre_env_latency_us"]).total_seconds(), steps_delay=0)
     if case.get("use_defaults"):
         # the configuration a user gets by passing only what is required (state, reward, fees left to their defaults)
         env = TradingEnv(action_space=make_space(b), transmitter=tr, initial_cash=case.get("deposit", 1000.0),
